@@ -18,6 +18,8 @@ open Oras Oras.Driver
 structure St where
   file : Bool := false
   cas : Bool := false                  -- file store with ForceCAS
+  nov : Bool := false                  -- file store with DisableOverwrite
+  absDisk : List Nat := []             -- names of files that were on disk before the store was opened
   isMan : List (Nat × Bool) := []
   succD : List (Nat × List SDesc) := []
   dig : List (Nat × Nat) := []
@@ -34,7 +36,7 @@ def St.cfg (s : St) : StoreCfg :=
 
 def showSErr : SErr → String
   | .alreadyExists => "alreadyExists" | .notFound => "notFound" | .missingRef => "missingRef"
-  | .duplicateName => "duplicateName" | .verify => "verify"
+  | .duplicateName => "duplicateName" | .verify => "verify" | .overwrite => "overwrite"
 
 def showU : Except SErr Unit → String
   | .ok _ => "ok" | .error e => "err:" ++ showSErr e
@@ -65,7 +67,14 @@ def absGate (s : St) (nm : Option Nat) : Bool :=
 def step (s : St) (toks : List String) : Option (St × String × String) :=
   let c := s.cfg
   match toks with
-  | "new" :: rest => do some ({ file := (← kv rest "kind") == "file", cas := (kv rest "cas") == some "1" }, "ok", "ok")
+  | "new" :: rest => do
+      let st0 : St := { file := (← kv rest "kind") == "file", cas := (kv rest "cas") == some "1",
+                        nov := (kv rest "nov") == some "1" }
+      some (st0, "ok", "ok")
+  | "disk" :: rest => do
+      -- a file of unknown content already sits in the working directory under this name
+      let k ← (← kv rest "name").toNat?
+      some ({ s with fs := s.fs.writeFile k .garbage, absDisk := k :: s.absDisk }, "ok", "ok")
   | "node" :: n :: rest => do
       let n ← n.toNat?
       let ss ← parseSucc (← kv rest "succ")
@@ -78,7 +87,7 @@ def step (s : St) (toks : List String) : Option (St × String × String) :=
       -- specification
       let refused := if s.file then
           (match nm with
-            | some k => s.absNamed.any (·.1 == k)
+            | some k => s.absNamed.any (·.1 == k) || (s.nov && s.absDisk.contains k)   -- DisableOverwrite
             | none => s.absContent.contains n)
         else s.absContent.contains n
       let okSpec := !refused && good
@@ -100,7 +109,7 @@ def step (s : St) (toks : List String) : Option (St × String × String) :=
       let sp := if okSpec then "ok" else "err"
       -- model
       if s.file then
-        let (fs', r) := s.fs.push c (!Gen.fileRecordsPathAfterCopy) ⟨n, nm⟩ good s.cas
+        let (fs', r) := s.fs.push c (!Gen.fileRecordsPathAfterCopy) ⟨n, nm⟩ good s.cas s.nov Gen.fileRemovesPartialOnFailure
         some ({ s1 with fs := fs' }, showU r, sp)
       else
         let (m', r) := s.mem.push c n good
